@@ -22,6 +22,9 @@ def cases(tier, seed):
     for rel in files.fixtures():
         out.append({'id': 'fix:' + rel, 'file': {'kind': 'fixture', 'rel': rel}, 'nops': 60 if tier == 'quick' else 400,
                     'cost': 2})
+    # a sample axis that has the coordinate 0 beyond its first sample (recording starts before time zero)
+    for j, (t0_, dt_) in enumerate([(-8, 2000), (-12, 4000), (-1, 250)]):
+        out.append({'id': 'w3:zero-interior:%d' % j, 'file': files.wspec_desc(rng, (5, 6, 13), 4, (4, 4, 512), t0=t0_, dt=dt_, version=[0, 2, 9], f64=None), 'nops': 40, 'cost': 1})
     reps = 3 if tier == 'quick' else 12
     cap = 600_000 if tier == 'quick' else 6_000_000
     for rep in range(reps):
@@ -141,6 +144,17 @@ def run_case(case, ctx):
                     exp[cops[-1]] = V[t // nX, t % nX, lo:hi]
                 cops.append(('get_trace_by_coord', (0,)))
                 exp[cops[-1]] = V[0, 0]
+                # the coordinate 0 as a window bound, where the axis has it beyond its first sample (recording starts before time zero)
+                z0 = [j for j in range(1, nZ) if float(r.zslices[j]) == 0.0]
+                if z0:
+                    j0 = z0[0]
+                    t = rng.randrange(nI * nX)
+                    if j0 < nZ - 1:
+                        cops.append(('get_trace_by_coord', (t, 0.0, float(r.zslices[-1]))))
+                        exp[cops[-1]] = V[t // nX, t % nX, j0:nZ - 1]
+                    cops.append(('get_trace_by_coord', (t, float(r.zslices[0]), 0.0)))
+                    exp[cops[-1]] = V[t // nX, t % nX, 0:j0]
+                    strata.add('coordinate-zero-interior')
             b, k = reads.check_ops(r, cops, lambda op: exp[op])
             bad += b
             n += k
@@ -260,7 +274,7 @@ def xarray_checks(path, V, sp, rng):
 
 def finalize(tier, cases, results, counters, strata):
     reasons = []
-    need = ['layout:default', 'layout:zslice', 'layout:general', 'layout:2d', 'irregular', 'kind:fixture']
+    need = ['coordinate-zero-interior', 'layout:default', 'layout:zslice', 'layout:general', 'layout:2d', 'irregular', 'kind:fixture']
     need += ['rate:%s' % r for r in (0.25, 0.5, 1, 2, 4, 8, 16, 32)]
     for s in need:
         if s not in strata:
